@@ -3,8 +3,8 @@ import os, subprocess, time, re
 from concurrent.futures import ThreadPoolExecutor
 from vp import build, core
 
-OPS = "isbfhcdx"
-NAMES = dict(i="init", s="convert(small)", b="convert(1500 tokens, two slabs)", f="fill the slab exactly", h="parse and hold a tree",
+OPS = "iskbfhcdx"
+NAMES = dict(i="init", s="convert(small)", k="convert(kitchen sink: headings, definitions, table, notes)", b="convert(1500 tokens, two slabs)", f="fill the slab exactly", h="parse and hold a tree",
              c="inspect held tree", d="drain", x="free")
 
 def exe():
@@ -24,7 +24,7 @@ def legal(hist):
     out = []
     for o in OPS:
         if o == "i": out.append(o)
-        elif o in "sbf" and count > 0: out.append(o)
+        elif o in "skbf" and count > 0: out.append(o)
         elif o == "h" and count > 0 and not held: out.append(o)
         elif o == "c" and held: out.append(o)
         elif o == "d" and count > 0: out.append(o)
